@@ -132,7 +132,7 @@ def check_case(ctx, case, record=True):
 def run_shard(ctx):
     max_nodes, max_ops = (8, 4) if ctx.tier == "quick" else (12, 7)
 
-    @given(regcommon.reg_cases(max_nodes=max_nodes, max_ops=max_ops, det_share=60, disturb_last=True, faults=False, xdeps=True, alias=True))
+    @given(regcommon.reg_cases(max_nodes=max_nodes, max_ops=max_ops, det_share=60, disturb_last=True, faults=False, xdeps=True, alias=True, sread=True))
     def test(case):
         check_case(ctx, case)
 
